@@ -28,6 +28,7 @@ type Rule struct {
 	release    chan struct{}
 	once       sync.Once
 	hits       int
+	action     func() // not nil: run on the arriving goroutine instead of parking it
 }
 
 // New installs a fresh controller as the process-wide yield callback.
@@ -54,6 +55,17 @@ func (c *Controller) Park(point, key string) *Rule {
 	r := &Rule{Point: point, Key: key, Times: 1, arrived: make(chan struct{}), release: make(chan struct{})}
 	c.mu.Lock()
 	c.rules = append(c.rules, r)
+	c.mu.Unlock()
+	return r
+}
+
+// Do adds a rule whose action runs once, on the goroutine that reaches point
+// (and key, if not empty), which then continues: an event placed exactly at a
+// step of the library, with nothing scheduled in between.
+func (c *Controller) Do(point, key string, action func()) *Rule {
+	r := c.Park(point, key)
+	c.mu.Lock()
+	r.action = action
 	c.mu.Unlock()
 	return r
 }
@@ -87,6 +99,11 @@ func (c *Controller) yield(point, key string) {
 	}
 	c.mu.Unlock()
 	if hit == nil {
+		return
+	}
+	if hit.action != nil {
+		hit.action()
+		close(hit.arrived)
 		return
 	}
 	if hit.hits == 1 {
